@@ -678,7 +678,7 @@ func TestFinding77to82_FourthBatch(t *testing.T) {
 
 // rows 83-91 — reflect preconditions that depend on the value (C11.R14: short list for an array parameter, NaN map
 // key, nil function-map entry), a collection passed by pointer (C04.R12), the empty v-show (C03.R16), bound props
-// that look like JSON (C05.R13), Unicode spaces in evaluated content (C02.R14), no filesystem (C11.R15)
+// that look like JSON (C05.R14), Unicode spaces in evaluated content (C02.R14), no filesystem (C11.R15)
 func TestFinding83to91_FifthBatch(t *testing.T) {
 	render := func(funcs vuego.FuncMap, tpl string, data any) (out string, err error) {
 		defer func() {
@@ -743,4 +743,65 @@ func TestFinding83to91_FifthBatch(t *testing.T) {
 			t.Errorf("Loader.Stat without filesystem: nil error")
 		}
 	}()
+}
+
+// rows 93-96, 100, 101 — commas and semicolons inside brackets (C14.R16), typed nil pointers (C03.R17), white space
+// around a plain name (C17.R17), the fallback children of v-html / v-text (C16.R12), typed maps as root data (C08.R14)
+func TestFinding93to101_SixthBatch(t *testing.T) {
+	var np *int
+	data := map[string]any{"x": "hello", "wide": true, "off": false, "list": []any{"a", "b"}, "np": np, "xs": []int{1, 2}}
+	for src, want := range map[string]string{
+		`<div :class="{a: len(list) > 1, c: x in ['hello', 'y'], d: wide}">t</div>`:                               `<divclass="acd">t</div>`,
+		`<div style="background:url(data:image/png;base64,AAAA)" :style="{color:'red'}">t</div>`:                  `<divstyle="background:url(data:image/png;base64,AAAA);color:red;">t</div>`,
+		`<div style="background:url(data:image/png;base64,AAAA)" v-show="off">t</div>`:                            `<divstyle="background:url(data:image/png;base64,AAAA);display:none;">t</div>`,
+		`<p v-if="np">if</p><p v-else>else</p><p v-show="np">s</p><input :title="np"><i :class="{on: np}">c</i>`: `<p>else</p><pstyle="display:none;">s</p><input></input><i>c</i>`,
+		`<div v-for="i in xs" v-html="missing"><style v-once>.a{}</style><b v-if="off">{{ x }}</b></div>`:        `<div><style>.a{}</style></div><div></div>`,
+		`<div v-text="missing">fallback {{ x }}</div>`:                                                            `<div>fallbackhello</div>`,
+	} {
+		out, err := renderFS(t, map[string]string{"p.vuego": src}, "p.vuego", data)
+		if got := strings.Join(strings.Fields(out), ""); err != nil || got != want {
+			t.Errorf("%s: got %q err=%v, want %q", src, got, err, want)
+		}
+	}
+	s := vuego.NewStack(map[string]any{"n": 1, "xs": []any{0, 1}})
+	if v, ok := s.Resolve(" n "); !ok || v != 1 {
+		t.Errorf("Resolve(\" n \") = %v %v, want 1 true", v, ok)
+	}
+	if v, ok := s.Resolve(" xs[1] "); !ok || v != 1 {
+		t.Errorf("Resolve(\" xs[1] \") = %v %v, want 1 true", v, ok)
+	}
+	// a typed and a named map as data: above theme.yml, visible to expressions inside loops
+	type H map[string]any
+	files := map[string]string{"theme.yml": "title: theme\nonly: theme-only\n", "page.vuego": `<p>[{{ title }}][{{ only }}]<b v-if="title == 'filled'">if</b></p><li v-for="x in xs" v-if="x > lim">{{ x }}</li>`}
+	for name, d := range map[string]any{"map[string]string": map[string]string{"title": "filled"}, "named": H{"title": "filled", "xs": []int{1, 2, 3}, "lim": 1}} {
+		out, err := renderFS(t, files, "page.vuego", d)
+		got := strings.Join(strings.Fields(out), "")
+		if err != nil || !strings.HasPrefix(got, "<p>[filled][theme-only]<b>if</b></p>") {
+			t.Errorf("%s as data: got %q err=%v", name, got, err)
+		}
+		if name == "named" && !strings.HasSuffix(got, "<li>2</li><li>3</li>") {
+			t.Errorf("%s as data, per-item expression: got %q", name, got)
+		}
+	}
+}
+
+// row 101 — C10.R10: the evaluator's map builtins enumerate in key order
+func TestFinding101_MapBuiltinsAreDeterministic(t *testing.T) {
+	data := map[string]any{"m": map[string]any{"a": 1, "b": 2, "c": 3, "d": 4, "e": 5, "f": 6, "g": 7}}
+	seen := map[string]bool{}
+	for i := 0; i < 30; i++ {
+		out, err := renderStr(t, `<p>{{ "" + join(keys(m), ",") }}</p><i v-if="keys(m)[0] == 'a'">a first</i><p>{{ "" + string(values(m)) }}</p><p>{{ "" + string(toPairs(m)) }}</p>`, data)
+		if err != nil {
+			t.Fatal(err)
+		}
+		seen[out] = true
+	}
+	if len(seen) != 1 {
+		t.Errorf("%d distinct outputs in 30 renders of the same template and data", len(seen))
+	}
+	for out := range seen {
+		if !strings.Contains(out, "<p>a,b,c,d,e,f,g</p>") || !strings.Contains(out, "a first") {
+			t.Errorf("not in key order: %q", out)
+		}
+	}
 }
